@@ -1,6 +1,6 @@
 (* C08/Proofs.v *)
-From Coq Require Import QArith List Bool Lqa.
-From FV Require Import Base.Ser Base.Res Geom.QTools C09.Model C08.Model.
+From Coq Require Import QArith List Bool Lqa Setoid Morphisms.
+From FV Require Import Base.Ser Base.Res Geom.QTools C09.Model C09.Proofs C08.Model.
 Import ListNotations.
 Open Scope Q_scope.
 
@@ -83,4 +83,156 @@ Proof.
       * destruct (Qltb_spec (adef L) v); [|lra].
         destruct (Qleb_spec 0 v); [|lra]. destruct (Qleb_spec 0 (adef L)); [|lra]. destruct (Qleb_spec 0 (amax L)); [|lra].
         field; repeat split; nra.
+Qed.
+
+(* ---------- pinning an axis: only the always-on delta remains, scaled by the tent's value at the pin ---------- *)
+Lemma tentval_near_peak l p u x : l <= p -> p <= u -> x == p -> tentval (l, p, u) x == 1.
+Proof.
+  intros H1 H2 Hx. unfold tentval. destruct (Qeqb_spec p 0); [reflexivity|].
+  destruct (Qltb_spec p l); [lra|]. destruct (Qltb_spec u p); [lra|]. cbn [orb].
+  destruct (Qltb_spec l 0); destruct (Qltb_spec 0 u); cbn [andb]; try reflexivity;
+    unfold rawtent; destruct (Qeqb_spec x p); try reflexivity; contradiction.
+Qed.
+
+(* with all three limits at the peak, _solve's main case keeps the gain 1 and every other piece has scalar 0 *)
+Lemma solve_main_pin l p u L : l <= p -> p <= u -> amin L == p -> adef L == p -> amax L == p ->
+  exists g rest, solve_main (l, p, u) L = (g, None) :: rest /\ g == 1 /\ Forall (fun s : sol => fst s == 0) rest.
+Proof.
+  intros H1 H2 Hmin Hdef Hmax. unfold solve_main.
+  pose proof (tentval_near_peak l p u (adef L) H1 H2 Hdef) as G.
+  pose proof (tentval_near_peak l p u (amax L) H1 H2 Hmax) as OG.
+  pose proof (tentval_near_peak l p u (amin L) H1 H2 Hmin) as MG.
+  set (gain := tentval (l, p, u) (adef L)) in *. set (outGain := tentval (l, p, u) (amax L)) in *.
+  destruct (Qleb_spec outGain gain) as [_|N]; [|lra].
+  destruct (Qleb_spec (amax L) u) as [_|N]; [|lra].
+  destruct (Qleb_spec l (amin L)) as [_|N]; [|lra].
+  eexists. eexists. split; [reflexivity|]. split; [exact G|].
+  repeat constructor; cbn [fst]; lra.
+Qed.
+
+Global Instance tentval_proper_x t : Proper (Qeq ==> Qeq) (tentval t).
+Proof.
+  destruct t as [[l p] u]. intros x x' Hx. unfold tentval.
+  destruct (Qeqb p 0); [reflexivity|]. destruct (Qltb p l || Qltb u p); [reflexivity|].
+  destruct (Qltb l 0 && Qltb 0 u); [reflexivity|]. rewrite Hx. reflexivity.
+Qed.
+
+Definition pin_shape (sols : list sol) (v : Q) : Prop :=
+  (sols = [] /\ v == 0) \/ (exists g rest, sols = (g, None) :: rest /\ g == v /\ Forall (fun s : sol => fst s == 0) rest).
+
+Lemma Forall_scaled (rest : list sol) m : Forall (fun s : sol => fst s == 0) rest ->
+  Forall (fun s : sol => fst s == 0) (map (fun s : sol => (fst s * m, snd s)) rest).
+Proof. induction 1 as [|s r Hs F IH]; cbn [map]; constructor; [cbn [fst]; rewrite Hs; ring|exact IH]. Qed.
+
+(* the tent's peak is at or above the pin *)
+Lemma solve_pin_ge f l p u L c : l <= p -> p <= u -> ~ p == 0 -> no_straddle (l, p, u) ->
+  amin L == c -> adef L == c -> amax L == c -> c <= p ->
+  exists sols, solve (S (S f)) (l, p, u) L = Ok sols /\ pin_shape sols (tentval (l, p, u) c).
+Proof.
+  intros H1 H2 Hp0 NS Hmin Hdef Hmax Hcp.
+  cbn [solve]. destruct (Qltb_spec p (adef L)) as [N|_]; [lra|].
+  destruct (Qleb_spec (amax L) l) as [A1|A1]; destruct (Qltb_spec (amax L) p) as [A2|A2]; cbn [andb].
+  - (* the whole tent lies beyond the pin *)
+    exists []. split; [reflexivity|]. left. split; [reflexivity|].
+    unfold tentval. destruct (Qeqb_spec p 0); [contradiction|].
+    destruct (Qltb_spec p l); [lra|]. destruct (Qltb_spec u p); [lra|]. cbn [orb].
+    assert (SF: Qltb l 0 && Qltb 0 u = false).
+    { cbn [no_straddle] in NS. destruct (Qltb_spec l 0); destruct (Qltb_spec 0 u); cbn [andb]; try reflexivity. lra. }
+    rewrite SF. apply rt_left; lra.
+  - (* amax <= l, amax >= p: then p == c == l *)
+    assert (E: p == c) by lra.
+    destruct (solve_main_pin l p u L H1 H2) as [g [rest [S [G R]]]]; try lra.
+    exists ((g, None) :: rest). split; [rewrite S; reflexivity|]. right. exists g, rest. split; [reflexivity|split; [|exact R]].
+    rewrite G. symmetry. apply tentval_near_peak; lra.
+  - (* the peak is beyond the pin: scale by the value at the pin and solve the clipped tent *)
+    cbn [solve]. destruct (Qltb_spec (amax L) (adef L)) as [N|_]; [lra|].
+    destruct (Qltb_spec (amax L) (amax L)) as [N|_]; [lra|].
+    destruct (solve_main_pin l (amax L) (amax L) L) as [g [rest [S [G R]]]]; try lra.
+    rewrite S. cbn [bind map fst snd].
+    eexists. split; [reflexivity|]. right. eexists. eexists. split; [reflexivity|]. split.
+    + rewrite G. rewrite Hmax. ring.
+    + apply Forall_scaled. exact R.
+  - assert (E: p == c) by lra.
+    destruct (solve_main_pin l p u L H1 H2) as [g [rest [S [G R]]]]; try lra.
+    exists ((g, None) :: rest). split; [rewrite S; reflexivity|]. right. exists g, rest. split; [reflexivity|split; [|exact R]].
+    rewrite G. symmetry. apply tentval_near_peak; lra.
+Qed.
+
+Lemma tentval_rev l p u c : tentval (tent_reverse_negate (l, p, u)) (- c) == tentval (l, p, u) c.
+Proof.
+  unfold tent_reverse_negate, tentval.
+  destruct (Qeqb_spec (- p) 0); destruct (Qeqb_spec p 0); try lra; try reflexivity.
+  destruct (Qltb_spec (- p) (- u)); destruct (Qltb_spec u p); try lra;
+  destruct (Qltb_spec (- l) (- p)); destruct (Qltb_spec p l); try lra; cbn [orb]; try reflexivity.
+  destruct (Qltb_spec (- u) 0); destruct (Qltb_spec 0 u); try lra;
+  destruct (Qltb_spec 0 (- l)); destruct (Qltb_spec l 0); try lra; cbn [andb]; try reflexivity;
+  unfold rawtent;
+  destruct (Qeqb_spec (- c) (- p)); destruct (Qeqb_spec c p); try lra; try reflexivity;
+  destruct (Qleb_spec (- c) (- u)); destruct (Qleb_spec u c); try lra;
+  destruct (Qleb_spec (- l) (- c)); destruct (Qleb_spec c l); try lra; cbn [orb]; try reflexivity;
+  destruct (Qltb_spec (- c) (- p)); destruct (Qltb_spec c p); try lra; field; lra.
+Qed.
+
+Lemma pin_shape_map_rev sols v :
+  pin_shape sols v -> pin_shape (map (fun s : sol => (fst s, option_map tent_reverse_negate (snd s))) sols) v.
+Proof.
+  intros [[-> H]|[g [rest [-> [G R]]]]]; [left; split; [reflexivity|exact H]|].
+  right. exists g. eexists. split; [reflexivity|]. split; [exact G|].
+  induction R as [|s r Hs F IH]; cbn [map]; constructor; [exact Hs|exact IH].
+Qed.
+
+Lemma solve_mirror_step f l p u L : Qltb p (adef L) = true ->
+  solve (S f) (l, p, u) L =
+    (let* r := solve f (tent_reverse_negate (l, p, u)) (lim_reverse_negate L) in
+     Ok (map (fun s : sol => (fst s, option_map tent_reverse_negate (snd s))) r)).
+Proof. intros H. cbn [solve]. rewrite H. reflexivity. Qed.
+
+Lemma solve_pin f l p u L c : l <= p -> p <= u -> ~ p == 0 -> no_straddle (l, p, u) ->
+  amin L == c -> adef L == c -> amax L == c ->
+  exists sols, solve (S (S (S f))) (l, p, u) L = Ok sols /\ pin_shape sols (tentval (l, p, u) c).
+Proof.
+  intros H1 H2 Hp0 NS Hmin Hdef Hmax.
+  destruct (Qlt_le_dec p c) as [Lt|Ge].
+  - (* mirror *)
+    rewrite solve_mirror_step by (destruct (Qltb_spec p (adef L)); [reflexivity|lra]).
+    destruct (solve_pin_ge f (- u) (- p) (- l) (lim_reverse_negate L) (- c)) as [sols [S P]].
+    { lra. } { lra. } { lra. } { cbn [no_straddle] in *. lra. }
+    { unfold lim_reverse_negate; cbn [amin]; lra. } { unfold lim_reverse_negate; cbn [adef]; lra. }
+    { unfold lim_reverse_negate; cbn [amax]; lra. } { lra. }
+    change (tent_reverse_negate (l, p, u)) with (- u, - p, - l).
+    rewrite S. cbn [bind]. eexists. split; [reflexivity|].
+    apply pin_shape_map_rev.
+    assert (E: tentval (- u, - p, - l) (- c) == tentval (l, p, u) c) by (apply (tentval_rev l p u c)).
+    destruct P as [[-> H]|[g [rest [-> [G R]]]]]; [left; split; [reflexivity|lra]|].
+    right. exists g, rest. split; [reflexivity|split; [lra|exact R]].
+  - apply solve_pin_ge; assumption.
+Qed.
+
+Lemma filter_zero_rest (rest : list sol) : Forall (fun s : sol => fst s == 0) rest ->
+  filter (fun s : sol => negb (Qeqb (fst s) 0)) rest = [].
+Proof.
+  induction 1 as [|s r Hs F IH]; [reflexivity|]. cbn [filter]. destruct (Qeqb_spec (fst s) 0); [cbn [negb]; exact IH|contradiction].
+Qed.
+
+(* PINNING: rebaseTent on limits min = default = max leaves at most the always-on delta, scaled by the tent's value at the pin *)
+Theorem rebase_pin t L sols : no_straddle t -> amin L == adef L -> amax L == adef L ->
+  rebaseTent t L = Ok sols ->
+  Forall (fun s : sol => snd s = None) sols /\ sum_fst sols == tentval t (adef L).
+Proof.
+  destruct t as [[l p] u]. intros NS Hmin Hmax H. unfold rebaseTent in H.
+  destruct (negb (Qleb (-1) (amin L) && Qleb (amin L) (adef L) && Qleb (adef L) (amax L) && Qleb (amax L) 1)); [discriminate|].
+  destruct (Qleb_spec (-2) l); cbn [andb negb] in H; [|discriminate].
+  destruct (Qleb_spec l p); cbn [andb negb] in H; [|discriminate].
+  destruct (Qleb_spec p u); cbn [andb negb] in H; [|discriminate].
+  destruct (Qleb_spec u 2); cbn [andb negb] in H; [|discriminate].
+  destruct (Qeqb_spec p 0); [discriminate|].
+  destruct (solve_pin 1%nat l p u L (adef L)) as [s0 [HS P]]; try assumption; try reflexivity.
+  change (solve 4 (l, p, u) L) with (solve (Datatypes.S (Datatypes.S (Datatypes.S 1%nat))) (l, p, u) L) in H. rewrite HS in H. cbn [bind] in H.
+  apply Ok_inj in H. subst sols.
+  destruct P as [[-> Z]|[g [rest [-> [G R]]]]].
+  - cbn. split; [constructor|]. rewrite Z. reflexivity.
+  - cbn [filter fst]. rewrite (filter_zero_rest rest R).
+    destruct (Qeqb_spec g 0) as [Z|NZ]; cbn [negb map].
+    + split; [constructor|]. cbn [sum_fst]. rewrite <- G, Z. reflexivity.
+    + cbn [option_map snd fst sum_fst]. split; [constructor; [reflexivity|constructor]|]. rewrite G. ring.
 Qed.
